@@ -129,6 +129,12 @@ def rule_funnel(ctx):
             if isinstance(v, ast.Call) and v.args and isinstance(
                     v.args[0], ast.Name):
                 resvar = v.args[0].id
+            elif isinstance(v, ast.Call) and v.args and isinstance(
+                    v.args[0], ast.Call) and v.args[0].args and isinstance(
+                    v.args[0].args[0], ast.Name):
+                # `return_func(_view(res, otype), *args)`: the result passes
+                # through a conversion helper on its way out
+                resvar = v.args[0].args[0].id
             elif isinstance(v, ast.Name):
                 resvar = v.id
     if resvar is None:
@@ -259,17 +265,28 @@ def rule_funnel(ctx):
                         if r_ and r_[0] == 'func' and r_[1].module is w.module \
                                 and r_[1].parent is None:
                             helpers.add(r_[1].name)
-            helpers = sorted(helpers)
+            # the finding is identified by the pairing helpers of the pinned
+            # tree it goes through; private helpers that are new relative to
+            # the record (spec/anchors.json) are packaging, not identity
+            from ..inline import _established
+            est = _established() or set()
+            helpers = sorted(h for h in helpers if not (
+                h.startswith('_') and (FUNCS_REL, h) not in est))
             # identified by the pairing helper it uses, not by how the
             # condition leading to it is spelled
-            rr.fail('%s::wrap_ufunc::hand-rolled evaluation path through %s' % (
-                FUNCS_REL, '+'.join(helpers) or 'inline pairing'),
-                'wrap_ufunc.wrapper has an evaluation path (when `%s`) that '
-                'does not delegate broadcasting to numpy but pairs elements by '
-                'hand (%s): a row vector or an error value among the arguments '
-                'is handled differently from the normal path' % (
-                    cond, ', '.join(helpers) or norm_src(first.value)[:60]),
-                file=FUNCS_REL, function=w.qualname, line=first.lineno)
+            # one finding per pairing helper: whether the two hand-rolled
+            # cases sit in two blocks or share one does not change what is
+            # reported
+            for h_ in helpers or ['inline pairing']:
+                rr.fail('%s::wrap_ufunc::hand-rolled evaluation path through '
+                        '%s' % (FUNCS_REL, h_),
+                        'wrap_ufunc.wrapper has an evaluation path (when `%s`) '
+                        'that does not delegate broadcasting to numpy but pairs '
+                        'elements by hand (%s): a row vector or an error value '
+                        'among the arguments is handled differently from the '
+                        'normal path' % (cond, h_ if helpers else norm_src(
+                            first.value)[:60]),
+                        file=FUNCS_REL, function=w.qualname, line=first.lineno)
     # the core is evaluated only inside safe_eval: the wrapper itself never
     # calls it or hands it to a helper
     rr.instances += 1
